@@ -285,6 +285,9 @@ def worker_main(pid, subname, shard, tier, seed, outpath):
            "rejected_reasons": {}}
     nt = set()
     budget_s = sub.timeout[tier] * 0.8
+    if os.environ.get("VERIF_BUDGET_S"):
+        # optional wall-clock cap per sub-check shard (the run then reports "inconclusive: budget hit", never a violation)
+        budget_s = min(budget_s, float(os.environ["VERIF_BUDGET_S"]))
     state = {"fail": None, "calls_after_fail": 0, "harness": None}
 
     os.environ["VERIF_SHARD"] = str(shard)
